@@ -447,6 +447,11 @@ def run_shape(ctx):
             yi = Field(Call("get", Mentions(Field(iitem, name="1")), Field(oitem, name="0")), name="0", variant="Some")
             good = Field(iitem, name="0")(a[2][0]) and Bin("Mul", t, S(yi))(a[2][1]) and aas[0][0] in inner[1] and b.dominates(uj[0][0], aas[0][0])
             detail = "*u_j += (l * wn_i) * poly[i] (after the multiplication by d) not found: %s" % fmt(a)[:200]
+        if good:
+            # no shortcut out of the recurrence: the only value returned is the accumulator vector after the scaling loop
+            rds = [rd for rd in g.retdefs if rd.expr is not None]
+            good = len(rds) == 1 and S(Same(isrc[2][0]))(rds[0].expr)
+            detail = "the function returns something other than the scaled accumulators (an early return skips the recurrence): %s" % [fmt(r.expr)[:80] for r in rds]
         req(ctx, rule, K + "barycentric-recurrence", good, "for each node i >= 1: l *= d; d = wn_i - x; every u_j = u_j * d + (l * wn_i) * y_ji",
             "poly_eval_lagrange_batched: %s" % detail, loc=f.loc)
         # initial values and final scaling: a loop over all results (written `for_each`, desugared to a loop) multiplying by
